@@ -6,8 +6,10 @@
 package c05
 
 import (
+	"context"
 	"database/sql"
 	"encoding/json"
+	"errors"
 	"fmt"
 	"strings"
 
@@ -95,6 +97,42 @@ func (p Prop) exec(c *Case, f *ops.Fault) (*ops.SingleRun, error) {
 	})
 }
 
+// execCtx runs the operation from a context-bound handle on the ConnPool shim;
+// with cf set the context is cancelled just before the cf.K-th pool call.  It
+// returns the kinds of the pool calls made.
+func (p Prop) execCtx(c *Case, cf *ops.CancelFault) (*ops.SingleRun, []string, error) {
+	var pool *simpool.Pool
+	ctx, cancel := context.WithCancel(context.Background())
+	defer cancel()
+	o := env.Options{PrepareStmt: c.Prepare}
+	o.WrapPool = func(db *sql.DB, drv *simdrv.Sim) gorm.ConnPool {
+		pool = simpool.New(db, drv)
+		return pool
+	}
+	first := 0
+	sr, err := ops.RunSingle(o, nil, nil, func(e *env.Env) ops.Result {
+		first = pool.Calls()
+		if cf != nil {
+			pool.Cancel = cancel
+			pool.CancelAt = first + cf.K
+		}
+		res := c.Op.Exec(e.DB.WithContext(ctx))
+		pool.CancelAt = -1
+		return res
+	})
+	if err != nil {
+		return nil, nil, err
+	}
+	if cf != nil {
+		cf.Fired = pool.CancelSeq != 0
+	}
+	pts := pool.Points
+	if first <= len(pts) {
+		pts = pts[first:]
+	}
+	return sr, pts, nil
+}
+
 // txCount is the number of transactions the (fault-free) run committed.
 func txCount(sr *ops.SingleRun) int {
 	n := 0
@@ -156,6 +194,27 @@ func (p Prop) Run(ci interface{}, focus *core.Violation) *core.Outcome {
 	} else {
 		id := 0
 		faults = append(ops.DriverSites(base.Events, &id), ops.HookSites(base.Hooks, &id)...)
+		// cancellation sites: one per pool call of a fault-free run from a context-bound handle
+		probe, points, err := p.execCtx(c, nil)
+		if err != nil {
+			out.Trouble = "context-bound fault-free run: " + err.Error()
+			return out
+		}
+		out.Runs++
+		if probe.Res.Err != nil || probe.D1 != base.D1 {
+			if viol("nondeterministic", c.Op.Kind+"|context_bound", fmt.Sprintf("the same operation from a context-bound handle on the pool shim differs from the fault-free run (err=%v):\n%s", probe.Res.Err, diff(base.D1, probe.D1)), probe, nil) {
+				return out
+			}
+		} else {
+			// the last calls of an operation are the interesting ones (COMMIT): list all, at most 40
+			for k, pt := range points {
+				if k >= 40 {
+					break
+				}
+				id++
+				faults = append(faults, ops.Fault{Cancel: &ops.CancelFault{ID: id, K: k, At: pt}})
+			}
+		}
 		ops.SortFaults(faults)
 		out.Count("sites_total", int64(len(faults)))
 		if c.MaxSites > 0 && len(faults) > c.MaxSites {
@@ -173,7 +232,13 @@ func (p Prop) Run(ci interface{}, focus *core.Violation) *core.Outcome {
 	out.Count(fmt.Sprintf("ops_with_%d_implicit_transactions", baseTx), 1)
 	for i := range faults {
 		f := &faults[i]
-		sr, err := p.exec(c, f)
+		var sr *ops.SingleRun
+		var err error
+		if f.Cancel != nil {
+			sr, _, err = p.execCtx(c, f.Cancel)
+		} else {
+			sr, err = p.exec(c, f)
+		}
 		if err != nil {
 			out.Trouble = "faulted run: " + err.Error()
 			return out
@@ -183,6 +248,8 @@ func (p Prop) Run(ci interface{}, focus *core.Violation) *core.Outcome {
 		kind := "hook_err"
 		if f.Drv != nil {
 			kind = f.Drv.Kind + "_" + f.Drv.Type
+		} else if f.Cancel != nil {
+			kind = "cancel_" + f.Cancel.At
 		}
 		if fired {
 			out.Count("fired:"+kind, 1)
@@ -230,7 +297,12 @@ func (p Prop) Run(ci interface{}, focus *core.Violation) *core.Outcome {
 			continue
 		default:
 			out.Count("delivered:"+kind, 1)
-			if !isBadConn && !strings.Contains(e.Error(), f.Marker()) {
+			carried := strings.Contains(e.Error(), f.Marker())
+			if f.Cancel != nil && errors.Is(e, sql.ErrTxDone) {
+				// database/sql's watcher rolled the cancelled transaction back before COMMIT/ROLLBACK was called
+				carried = true
+			}
+			if !isBadConn && !carried {
 				if viol("error_not_reported", key, fmt.Sprintf("fault [%s] fired; returned Error %q does not carry it", f, e.Error()), sr, f) {
 					return out
 				}
